@@ -190,7 +190,21 @@ def install_engine_quirks():
 
     core.consider_shortcircuit = consider_shortcircuit
     try:
+        import builtins
+
         import simpleeval
+        from crosshair.util import CrossHairValue
+
+        def _callable(x):
+            # simpleeval probes callable() on every name/attribute value; the C builtin would force the engine to
+            # realise (enumerate) symbolic numbers/strings, which are never callable anyway.
+            with NoTracing():
+                if isinstance(x, CrossHairValue):
+                    return False
+            return builtins.callable(x)
+
+        simpleeval.callable = _callable
+        USED.append("engine: simpleeval's callable() probe answers False for symbolic scalars without realising them")
 
         orig_init = simpleeval.SimpleEval.__init__
 
@@ -216,6 +230,57 @@ def install_engine_quirks():
     USED.append("engine: crosshair short-circuiting of contract-bearing callees disabled (always sound); simpleeval evaluator tables built untraced (CrossHair 0.0.110 crashes on >16-entry class-keyed dict literals)")
 
 
+def install_fast_re():
+    """re.* calls made by nemoguardrails modules run natively (untraced) when every argument is concrete.
+    CrossHair otherwise interprets even fully concrete regex calls with its pure-Python regex engine (10-100x slower).
+    With any symbolic argument the traced/modelled path is used unchanged."""
+    try:
+        from crosshair.tracers import NoTracing, is_tracing
+        from crosshair.util import CrossHairValue
+    except ImportError:
+        return
+    import re as real_re
+
+    def _all_concrete(args, kwargs):
+        with NoTracing():
+            for a in list(args) + list(kwargs.values()):
+                if isinstance(a, CrossHairValue):
+                    return False
+                if isinstance(a, (list, tuple)):
+                    for x in a:
+                        if isinstance(x, CrossHairValue):
+                            return False
+        return True
+
+    def wrap(fn):
+        def fast(*args, **kwargs):
+            if is_tracing() and _all_concrete(args, kwargs):
+                with NoTracing():
+                    return fn(*args, **kwargs)
+            return fn(*args, **kwargs)
+
+        return fast
+
+    proxy = types.ModuleType("re")
+    proxy.__dict__.update(real_re.__dict__)
+    for name in ("sub", "subn", "search", "match", "fullmatch", "findall", "finditer", "split", "compile", "escape"):
+        setattr(proxy, name, wrap(getattr(real_re, name)))
+    n = 0
+    for name, mod in list(sys.modules.items()):
+        if name.startswith("nemoguardrails") and mod is not None and mod.__dict__.get("re") is real_re:
+            mod.__dict__["re"] = proxy
+            n += 1
+    USED.append("engine: re.* calls inside nemoguardrails modules execute natively when all arguments are concrete (symbolic arguments still use the engine's regex model)")
+
+
+def install_log_helpers():
+    """Eagerly evaluated log-argument helpers get empty bodies (they str() whole contexts, realising symbolic values)."""
+    mod = sys.modules.get("nemoguardrails.colang.v2_x.runtime.statemachine")
+    if mod is not None and hasattr(mod, "_context_log"):
+        mod._context_log = lambda flow_state: ""
+        USED.append("logging: statemachine._context_log (argument of a log.info call) returns '' instead of str(context)")
+
+
 def reset():
     """Called by harnesses at the start of every path."""
     _Ids.n = 0
@@ -231,3 +296,5 @@ def install(ids=True, clock=True, choice=True):
     if choice:
         install_choice()
     install_engine_quirks()
+    install_log_helpers()
+    install_fast_re()
